@@ -23,6 +23,8 @@ CONSTANTS N,          \* threads 1..N
           WLOCK, SPIN, WAITING, DESIG, CONDB, WRW, LONGW, ALLF, RLOCK,    \* bits of mu.word (common.h)
           WZLO, WZHI, RZLO, RZHI,     \* MU_WZERO_TO_ACQUIRE / MU_RZERO_TO_ACQUIRE: low bits, and whether the reader field is included
           LTW, LTR,   \* lock_type tables as records [zlo, zhi, add, sww, coa, cour]
+          TaFix,      \* mu_wait.c: the stores that end mu_try_acquire_after_timeout_or_cancel keep MU_WRITER_WAITING cleared (TRUE, after the
+                      \* fix) or put back the word loaded before the acquiring CAS, resurrecting the bit (FALSE: known defect 6.7)
           CvFix,      \* cv.c wakes nsync_wait_n records under the cv spinlock (TRUE, after the fix) or in wake_waiters (FALSE)
           DbgFixed,   \* debug.c releases the spinlock by CAS loop (TRUE) or by a plain store of the stale word (FALSE)
           Loopers     \* threads whose program restarts for ever (C14 bargers)
@@ -350,9 +352,9 @@ Xfer(tw, wl, fca) ==
    ta_7_ld:  skip;                                                               \* mu.c:244
    ta_7_cas: rmc[W(self)] := rmc[W(self)] + 1;                                         \* mu.c:245
    ta_8_st:  waiting[W(self)] := 0;                                                 \* mu_wait.c:101 ATM_STORE
-   ta_8b_st: word := old + Add(lt);                                              \* mu_wait.c:104 ATM_STORE_REL
+   ta_8b_st: word := (IF TaFix THEN Clr(old, LTW.coa) ELSE old) + Add(lt);       \* mu_wait.c:104 ATM_STORE_REL
              held[self] := lt; sres[self] := 1; return;
-   ta_9_st:  word := old;                                                        \* mu_wait.c:108 ATM_STORE_REL
+   ta_9_st:  word := IF TaFix THEN Clr(old, LTW.coa) ELSE old;                   \* mu_wait.c:108 ATM_STORE_REL
              sres[self] := 0; return;
   }
 
@@ -628,29 +630,29 @@ Xfer(tw, wl, fca) ==
   }
 } *)
 \* BEGIN TRANSLATION
-\* Procedure variable old of procedure lock_slow at line 180 col 15 changed to old_
-\* Procedure variable old of procedure unlock_slow at line 219 col 15 changed to old_u
-\* Procedure variable rmq of procedure unlock_slow at line 219 col 101 changed to rmq_
-\* Procedure variable old of procedure mu_lock at line 280 col 15 changed to old_m
-\* Procedure variable old of procedure mu_trylock at line 293 col 15 changed to old_mu
-\* Procedure variable old of procedure mu_unlock at line 304 col 15 changed to old_mu_
-\* Procedure variable old of procedure try_acquire at line 334 col 15 changed to old_t
-\* Procedure variable old of procedure mu_wait at line 361 col 15 changed to old_mu_w
-\* Procedure variable lt of procedure mu_wait at line 361 col 24 changed to lt_
-\* Procedure variable out of procedure mu_wait at line 361 col 46 changed to out_
-\* Procedure variable rc of procedure mu_wait at line 361 col 55 changed to rc_
-\* Procedure variable so of procedure mu_wait at line 361 col 86 changed to so_
-\* Procedure variable old of procedure cv_wake at line 432 col 15 changed to old_c
-\* Procedure variable old of procedure cv_wait at line 464 col 15 changed to old_cv
-\* Procedure variable lt of procedure cv_wait at line 464 col 24 changed to lt_c
-\* Procedure variable rc of procedure cv_wait at line 464 col 32 changed to rc_c
-\* Parameter lt of procedure lock_slow at line 179 col 23 changed to lt_l
-\* Parameter lt of procedure unlock_slow at line 218 col 25 changed to lt_u
-\* Parameter lt of procedure mu_lock at line 279 col 21 changed to lt_m
-\* Parameter lt of procedure mu_trylock at line 292 col 24 changed to lt_mu
-\* Parameter lt of procedure mu_unlock at line 303 col 23 changed to lt_mu_
-\* Parameter dl of procedure mu_wait at line 360 col 24 changed to dl_
-\* Parameter cn of procedure mu_wait at line 360 col 28 changed to cn_
+\* Procedure variable old of procedure lock_slow at line 182 col 15 changed to old_
+\* Procedure variable old of procedure unlock_slow at line 221 col 15 changed to old_u
+\* Procedure variable rmq of procedure unlock_slow at line 221 col 101 changed to rmq_
+\* Procedure variable old of procedure mu_lock at line 282 col 15 changed to old_m
+\* Procedure variable old of procedure mu_trylock at line 295 col 15 changed to old_mu
+\* Procedure variable old of procedure mu_unlock at line 306 col 15 changed to old_mu_
+\* Procedure variable old of procedure try_acquire at line 336 col 15 changed to old_t
+\* Procedure variable old of procedure mu_wait at line 363 col 15 changed to old_mu_w
+\* Procedure variable lt of procedure mu_wait at line 363 col 24 changed to lt_
+\* Procedure variable out of procedure mu_wait at line 363 col 46 changed to out_
+\* Procedure variable rc of procedure mu_wait at line 363 col 55 changed to rc_
+\* Procedure variable so of procedure mu_wait at line 363 col 86 changed to so_
+\* Procedure variable old of procedure cv_wake at line 434 col 15 changed to old_c
+\* Procedure variable old of procedure cv_wait at line 466 col 15 changed to old_cv
+\* Procedure variable lt of procedure cv_wait at line 466 col 24 changed to lt_c
+\* Procedure variable rc of procedure cv_wait at line 466 col 32 changed to rc_c
+\* Parameter lt of procedure lock_slow at line 181 col 23 changed to lt_l
+\* Parameter lt of procedure unlock_slow at line 220 col 25 changed to lt_u
+\* Parameter lt of procedure mu_lock at line 281 col 21 changed to lt_m
+\* Parameter lt of procedure mu_trylock at line 294 col 24 changed to lt_mu
+\* Parameter lt of procedure mu_unlock at line 305 col 23 changed to lt_mu_
+\* Parameter dl of procedure mu_wait at line 362 col 24 changed to dl_
+\* Parameter cn of procedure mu_wait at line 362 col 28 changed to cn_
 CONSTANT defaultInitValue
 VARIABLES pc, word, queue, cvword, cvq, waiting, rmc, cvmu, wl, wc, sc, nww, 
           nwsem, nww2, nreg2, sem, data, now, note, nreg, held, ret, sres, 
@@ -1193,7 +1195,7 @@ us_rs_cas(self) == /\ pc[self] = "us_rs_cas"
 us_scan_l(self) == /\ pc[self] = "us_scan_l"
                    /\ LET r == Scan(nwl[self], 1, <<>>, wty[self], sor[self], sc, wc, wl, data, tc[self]) IN
                         /\ Assert(tc[self] => ((word & WLOCK) # 0 /\ \A u \in Threads : held[u] = 0), 
-                                  "Failure of assertion at line 250, column 16.")
+                                  "Failure of assertion at line 252, column 16.")
                         /\ nwl' = [nwl EXCEPT ![self] = r.l]
                         /\ rmq_' = [rmq_ EXCEPT ![self] = r.wake]
                         /\ wake' = [wake EXCEPT ![self] = wake[self] \o r.wake]
@@ -2124,7 +2126,7 @@ ta_8_st(self) == /\ pc[self] = "ta_8_st"
                                  still2, cvr, dw, k, cdw, ck >>
 
 ta_8b_st(self) == /\ pc[self] = "ta_8b_st"
-                  /\ word' = old_t[self] + Add(lt[self])
+                  /\ word' = (IF TaFix THEN Clr(old_t[self], LTW.coa) ELSE old_t[self]) + Add(lt[self])
                   /\ held' = [held EXCEPT ![self] = lt[self]]
                   /\ sres' = [sres EXCEPT ![self] = 1]
                   /\ pc' = [pc EXCEPT ![self] = Head(stack[self]).pc]
@@ -2147,7 +2149,7 @@ ta_8b_st(self) == /\ pc[self] = "ta_8b_st"
                                   wq, still2, cvr, dw, k, cdw, ck >>
 
 ta_9_st(self) == /\ pc[self] = "ta_9_st"
-                 /\ word' = old_t[self]
+                 /\ word' = IF TaFix THEN Clr(old_t[self], LTW.coa) ELSE old_t[self]
                  /\ sres' = [sres EXCEPT ![self] = 0]
                  /\ pc' = [pc EXCEPT ![self] = Head(stack[self]).pc]
                  /\ old_t' = [old_t EXCEPT ![self] = Head(stack[self]).old_t]
